@@ -359,7 +359,7 @@ Definition handle_logon (s : sess) (m : minput) : sess * option rej :=
     | (s1, None) =>
       let flag := match mi_reset m with FVal true => true | _ => false end in
       let reset_store := reset0 || (flag && negb (s_sent_reset s1)) in
-      let s2 := if reset_store then store_reset s1 else s1 in
+      let s2 := if reset_store then drop_and_reset s1 else s1 in
       match verify_select s2 m false true false with
       | (s3, Some r) => (s3, Some r)
       | (s3, None) =>
@@ -675,7 +675,7 @@ Definition connect (s : sess) : sess :=
   let s0 := set_sent_reset (upd_chan s true true [] (s_closed s)) false in
   if negb (initiator s0) then set_state s0 SLogon
   else
-    let s1 := if c_reset_on_logon (s_cfg s0) then store_reset s0 else s0 in
+    let s1 := if c_reset_on_logon (s_cfg s0) then drop_and_reset s0 else s0 in
     let s2 := send_logon_in_reply_to s1 (should_send_reset s1) None in
     set_state s2 SLogon.
 
